@@ -179,3 +179,10 @@ func NewVerifDummyRS(name string) *ResourceSubscription {
 	rs.model = &Model{Values: map[string]codec.Value{}}
 	return rs
 }
+
+// VerifQueueLen returns the number of tasks queued for the resource subscription's cache entry.
+func VerifQueueLen(rs *ResourceSubscription) int {
+	rs.e.mu.Lock()
+	defer rs.e.mu.Unlock()
+	return len(rs.e.queue)
+}
